@@ -96,8 +96,17 @@ CLAIMED = {
              "evaluation of the whole table); `as` only between distinct primitives and never into bool (`cast_classes`); every "
              "violation is E550/E551 (`violation_rejected`). The tables are compared with the compiler exhaustively (10 binary "
              "x 169, 6 comparisons x 169 + pointers, 2 unary x 13, 169 casts), and well-typed generated programs with one "
-             "type-breaking edit must be rejected with a typing code. Partial: the typer's inference is not modelled; "
-             "assignment / argument / return agreement is covered by the mutant programs only.",
+             "type-breaking edit must be rejected with a typing code. Type agreement (what unification in the typer is made "
+             "of, value_type.rs `equals` / `is_like` / `can_be_declared_as` / `can_be_concretization_of` / `can_coerce_into`, and "
+             "`do_update_symbol`) is modelled over ALL types (lengths, named lengths, structure identities, inference placeholders): "
+             "`Ty.conc_concrete` (a type is a concretization of a fully known type only if it is that type), "
+             "`declaredAs_concrete`, `equals_iff` (equality up to the char8/u8 alias, at any depth), `coerceInto_shape` (only the "
+             "documented array/slice/structure-to-slice/view coercions), `update_concrete` (two fully known types unify only when "
+             "identical or by such a coercion), `update_prims`, `update_array_lengths`; the four public relations are compared "
+             "with the real functions on 64 000 type pairs (all pairs to depth 1, variants, random to depth 4), and the agreement "
+             "positions (initialisation, assignment, argument, return, pointers, structure-literal members, member assignment, "
+             "array shapes, ragged literals) on all 13 x 13 type pairs through the compiler. Partial: the typer's inference "
+             "algorithm itself is not modelled (`update` is a transcription exercised through those programs).",
         note="Trusted: Lean kernel, transcription of resolver.rs tables (checked exhaustively cell by cell), the mutant generator. "
              "char8 counts as arithmetic-capable and usize is excluded from bitwise/shift, as the tables have it.",
         technique="Lean 4 proof (kernel-checked complete finite tables) + exhaustive matrix correspondence + typed mutants",
